@@ -440,6 +440,39 @@ def nodeLookup {υ : Type} (S : Sem (Option υ)) (tagged : Bool) (subnodeRules n
   orElseLookup (if tagged then (selCompiled S subnodeRules none false).1 else none)
     (selCompiled S nodeRules none false).1
 
+/-- the same `Sem` with `δ = Option υ` (`none` = no rule matched), as `nodeLookup` needs it -/
+def optSem {υ : Type} (S : Sem υ) : Sem (Option υ) :=
+  { atom := S.atom, guard := S.guard, emptyVal := S.emptyVal, perValue := S.perValue, maxMatchSets := S.maxMatchSets
+    parseOut := fun o => match S.parseOut o with
+      | .final d => .final (some d)
+      | .mustRules => .mustRules }
+
+/-! ### dae's own lookups: `WrapNodeDialer` / `WrapSubscriptionDialer` + `selectUpstream`
+
+What production does when it resolves the host of a node or of a subscription link
+(`component/outbound/dialer/register.go` → `Router.WrapNodeDialer`, `cmd/run.go` →
+`Router.WrapSubscriptionDialer`, then `resolvingDialer.lookupIPAddr` → `Router.LookupIPAddr` →
+`Router.selectUpstream` once per question type):
+
+* the dialer is given the upstream *name* chosen by the internal selectors — for a node `subnode` rules
+  first (subscription nodes only), then `node` rules (the precedence is written out a second time in
+  `WrapNodeDialer`; `MatchNodeUpstream` is not on this path); for a subscription the `sub` rules;
+* `selectUpstream` uses that upstream when there is one and otherwise asks the **request matcher**
+  (compiled from the ordinary `qname`/`qtype` rules of the *same* normalised program) about the question
+  (host, qtype); the fallback of the request section is the matcher's fallback set.
+
+`T` reads the selectors (node / subscription at hand), `S` the question.  `none` = a build error. -/
+def ownNodeLookup {υ : Type} (S : Sem υ) (T : Sem (Option υ)) (tagged : Bool)
+    (subnodeRules nodeRules dnsRules : Prog) (fb : υ) : Option υ :=
+  match nodeLookup T tagged subnodeRules nodeRules with
+  | some u => some u
+  | none => (compiledDecision S dnsRules fb false).map (·.1)
+
+def ownSubLookup {υ : Type} (S : Sem υ) (T : Sem (Option υ)) (subRules dnsRules : Prog) (fb : υ) : Option υ :=
+  match (selCompiled T subRules none false).1 with
+  | some u => some u
+  | none => (compiledDecision S dnsRules fb false).map (·.1)
+
 /-! ## `SplitRequestRules` -/
 
 inductive Cat where
@@ -499,5 +532,121 @@ def catOfName (n : String) : Cat := (internalCat n).getD .dns
 
 def withCat {δ : Type} (S : Sem δ) (c : Cat) : Sem δ :=
   { S with guard := fun n => decide (catOfName n = c) && S.guard n }
+
+/-! ## The `DatReaderOptimizer` as it is: a cache in front of the files, filled by a pool of workers
+
+`datOpt` above reads the geodata through the pure function `Geo`.  The code does not: `loadGeoSite` /
+`loadGeoIp` look into a per-optimizer cache first (two maps, one per kind, keyed
+`<file>.dat:<lower-case code>`), load the file on a miss and store the result; `Optimize` runs one
+goroutine per rule (four at a time), each of which performs these look-ups and stores, and collects the
+results by rule index in whatever order they arrive.  Modelled here:
+
+* `cachedLoad` / `datOptC`: the optimizer with its cache, executed by the driver on the *history* of rule
+  lists one long-lived optimizer has served (one schedule of the pool: rule after rule);
+* `CacheEv` / `applyEv`: the only thing a worker ever does to the shared cache — store the content of a
+  file under that file's key;
+* `collect`: the collector loop.
+
+`Cache.lean` proves that for **every** history, **every** interleaving of the workers' cache accesses
+and **every** arrival order the result is `datOpt`. -/
+
+/-- `if !strings.HasSuffix(filename, ".dat") { filename += ".dat" }` -/
+def datFile (f : String) : String :=
+  if f.toList.reverse.take 4 = ".dat".toList.reverse then f else f ++ ".dat"
+
+/-- `filename + ":" + strings.ToLower(code)` (the code includes a possible `@attr`; ASCII folding). -/
+def cacheKey (file code : String) : String :=
+  datFile file ++ ":" ++ String.ofList (code.toList.map Char.toLower)
+
+abbrev Tbl := List (String × List Param)
+
+/-- `geoSiteCache` / `geoIpCache` -/
+structure DatCache where
+  site : Tbl := []
+  ip : Tbl := []
+deriving Repr, Inhabited
+
+/-- `loadGeoSite` / `loadGeoIp` around the file access `load`: a hit returns the cached list, a miss
+loads and (only when the load succeeded) stores. -/
+def cachedLoad (load : String → String → Option (List Param)) (t : Tbl) (file code : String) :
+    Option (List Param) × Tbl :=
+  match t.lookup (cacheKey file code) with
+  | some ps => (some ps, t)
+  | none =>
+    match load file code with
+    | some ps => (some ps, (cacheKey file code, ps) :: t)
+    | none => (none, t)
+
+def viaSite (g : Geo) (c : DatCache) (file code : String) : Option (List Param) × DatCache :=
+  let r := cachedLoad g.site c.site file code
+  (r.1, { c with site := r.2 })
+
+def viaIp (g : Geo) (c : DatCache) (file code : String) : Option (List Param) × DatCache :=
+  let r := cachedLoad g.ip c.ip file code
+  (r.1, { c with ip := r.2 })
+
+/-- `datParam` with the cache in front. -/
+def datParamC (g : Geo) (c : DatCache) (fname : String) (p : Param) : Option (List Param) × DatCache :=
+  if p.key = "geosite" then viaSite g c "geosite" p.val
+  else if p.key = "geoip" then viaIp g c "geoip" p.val
+  else if p.key = "ext" then
+    match cutColon p.val with
+    | none => (none, c)
+    | some (file, code) =>
+      if fname = "domain" ∨ fname = "qname" then viaSite g c file code
+      else if fname = "ip" then viaIp g c file code
+      else (none, c)
+  else (some [p], c)
+
+/-- run `f` over a list threading the state; stop at the first error (the worker returns). -/
+def threadOpt {α β σ : Type} (f : σ → α → Option β × σ) : σ → List α → Option (List β) × σ
+  | s, [] => (some [], s)
+  | s, a :: as =>
+    match f s a with
+    | (some b, s1) =>
+      match threadOpt f s1 as with
+      | (some bs, s2) => (some (b :: bs), s2)
+      | (none, s2) => (none, s2)
+    | (none, s1) => (none, s1)
+
+def datFuncC (g : Geo) (c : DatCache) (f : Func) : Option Func × DatCache :=
+  match threadOpt (fun c p => datParamC g c f.name p) c f.params with
+  | (some pss, c') =>
+    let ps := pss.flatten
+    (if !f.params.isEmpty && ps.isEmpty then none else some { f with params := ps }, c')
+  | (none, c') => (none, c')
+
+def datRuleC (g : Geo) (c : DatCache) (r : Rule) : Option Rule × DatCache :=
+  match threadOpt (datFuncC g) c r.funcs with
+  | (some fs, c') => (some { r with funcs := fs }, c')
+  | (none, c') => (none, c')
+
+/-- one `Optimize` call of an optimizer whose cache is `c`; returns the cache it leaves behind. -/
+def datOptC (g : Geo) (c : DatCache) (rs : Prog) : Option Prog × DatCache := threadOpt (datRuleC g) c rs
+
+/-- what a worker does to the shared cache: having missed, it loaded `file:code` (no lock held) and now
+stores the list under the key (a map assignment: an earlier entry of the key is replaced); nothing is
+stored after a load error. -/
+inductive CacheEv where
+  | storeSite (file code : String)
+  | storeIp (file code : String)
+
+def applyEv (g : Geo) (c : DatCache) : CacheEv → DatCache
+  | .storeSite f k =>
+    match g.site f k with
+    | some ps => { c with site := (cacheKey f k, ps) :: c.site }
+    | none => c
+  | .storeIp f k =>
+    match g.ip f k with
+    | some ps => { c with ip := (cacheKey f k, ps) :: c.ip }
+    | none => c
+
+/-- the collector loop of `Optimize`: `newRules := make([]*Rule, n)`; results are taken off the channel
+in arrival order, the first error ends the call, a rule goes to the slot of its index. -/
+def collect (n : Nat) (arrivals : List (Nat × Option Rule)) : Option (List (Option Rule)) :=
+  arrivals.foldl (fun acc a =>
+    match acc, a.2 with
+    | some slots, some r => some (slots.set a.1 (some r))
+    | _, _ => none) (some (List.replicate n none))
 
 end DaeVerif.C04
